@@ -290,7 +290,7 @@ def keyPage (g : Store) (key : Option Nat × List (Option Val)) : Except Err Pag
   .ok (mkPage g key.1 (look "Resources") (look "MediaBox") (look "CropBox") (look "Rotate"))
 
 theorem pageOfRaw_eq (g : Store) (rp : RawPage) : pageOfRaw g rp = keyPage g (rawKey rp) := by
-  unfold pageOfRaw keyPage rawKey
+  unfold pageOfRaw keyPage rawKey KEY_RESOURCES KEY_MEDIABOX KEY_CROPBOX KEY_ROTATE
   simp only [lookup_zip_map (dget rp.attrs) "Resources" INHERITABLE_ATTRS (by decide),
     lookup_zip_map (dget rp.attrs) "MediaBox" INHERITABLE_ATTRS (by decide),
     lookup_zip_map (dget rp.attrs) "CropBox" INHERITABLE_ATTRS (by decide),
